@@ -34,6 +34,10 @@ def gen_case(rng):
     if c['splitter_at'] is not None:
         # the division by the mother's own step is the only structural change of such a scenario
         c.update(generate_at=None, divide_at=None, director='process')
+    elif rng.random() < 0.12:
+        # the engine starts without any compartment and without any step: the composite's flow is the empty dictionary
+        c.update(bare=True, initial=[], generate_at=c['generate_at'] or 2, divide_at=None, director='process',
+                 entry=rng.choice(['parts', 'composite', 'composite']))
     return c
 
 
@@ -48,6 +52,9 @@ def _gen_case(rng):
 
 def corpus():
     return [
+        # nothing but the director at the start (empty steps, empty flow); a compartment with steps is generated
+        {'kind': 'dynflow', 'entry': 'composite', 'initial': [], 'generate_at': 2, 'divide_at': None, 'ticks': 4,
+         'x0': 0, 'slow': None, 'director': 'process', 'bare': True},
         {'kind': 'dynflow', 'entry': 'store', 'initial': ['a'], 'generate_at': None, 'divide_at': None, 'ticks': 3,
          'x0': 2},
         {'kind': 'dynflow', 'entry': 'parts', 'initial': ['a'], 'generate_at': 2, 'divide_at': None, 'ticks': 4,
@@ -301,6 +308,8 @@ def run_impl(case):
             parts = {'processes': {'agents': {}, 'director': Director({'key': key, 'case': case})},
                      'steps': {'agents': {}}, 'flow': {'agents': {}},
                      'topology': {'agents': {}, 'director': {'agents': ('agents',)}}}
+        if case.get('bare'):
+            parts['steps'], parts['flow'] = {}, {}
         init = {'agents': {}}
         for i, k in enumerate(case['initial']):
             comp = compartment(key, case['x0'] + 10 * i, case.get('slow'),
@@ -323,7 +332,8 @@ def run_impl(case):
             eng = Engine(processes=parts['processes'], steps=parts['steps'], flow=parts['flow'],
                          topology=parts['topology'], initial_state=init, **kw)
         elif case['entry'] == 'composite':
-            eng = Engine(composite=Composite(parts), initial_state=init, **kw)
+            built_from = Composite(parts)
+            eng = Engine(composite=built_from, initial_state=init, **kw)
         elif case['entry'] == 'merge':
             # every compartment is merged into the environment composite at its path
             env = Composite({})
@@ -377,7 +387,12 @@ def run_impl(case):
         def leaves(d):
             return sorted(list(p) for p in hierarchy_depth(d or {}).keys())
         obs['published'] = {'steps': leaves(eng.steps), 'flow': leaves(eng.flow),
-                            'store_steps': leaves(eng.state.get_steps() or {})}
+                            'store_steps': leaves(eng.state.get_steps() or {}),
+                            'store_flow': leaves(eng.state.get_flow() or {})}
+        if case['entry'] == 'composite':
+            # the Composite the engine was built from is kept up to date as well
+            obs['published']['written_back'] = {'steps': leaves(built_from['steps']),
+                                                'flow': leaves(built_from['flow'])}
     except Exception as e:  # noqa
         obs['raised'] = f'{type(e).__name__}: {str(e)[:200]}'
     finally:
@@ -462,6 +477,11 @@ def oracle(case, impl, who=('order', 'values', 'once', 'published', 'alive')):
         if ghost:
             fails.append(f'published: the published flow has entries {ghost} for steps that do not exist '
                          f'(an engine built from the published composite rejects it)')
+        wb = pub.get('written_back')
+        if wb and (wb['steps'] != pub['store_steps'] or wb['flow'] != pub['store_flow']):
+            fails.append(f'published: the Composite the engine was built from holds steps {wb["steps"]} with flow '
+                         f'entries {wb["flow"]}; the hierarchy holds steps {pub["store_steps"]} with flow entries '
+                         f'{pub["store_flow"]}')
     if 'once' in who or 'order' in who:
         # the steps logged between two rows form one phase (all compartments together)
         by_phase = {}
